@@ -2,7 +2,7 @@
 """eval_all.py [ids...]: run tools/eval_mutant.py for every /verif/seeded/<id>/ (or the given ids) and record the verdict in meta.json"""
 import json, os, subprocess, sys, concurrent.futures as cf
 S = "/verif/seeded"
-ids = sys.argv[1:] or sorted(os.listdir(S))
+ids = sys.argv[1:] or sorted(d for d in os.listdir(S) if os.path.isdir(os.path.join(S, d)))
 def run(i):
     d = os.path.join(S, i)
     meta = json.load(open(os.path.join(d, "meta.json")))
